@@ -225,8 +225,12 @@ func rulePathSeek(c *Ctx, r *Rep, tier string) {
 			if bo.Op == token.NEQ {
 				k = 1
 			}
-			if dominatedByEdge(fn, b, k, st.Block()) && seekCall != nil && instrDominates(seekCall, i) {
-				ok = true
+			if dominatedByEdge(fn, b, k, st.Block()) {
+				for _, sc := range seekCalls {
+					if instrDominates(sc, i) {
+						ok = true
+					}
+				}
 			}
 		}
 		if !ok {
@@ -500,6 +504,7 @@ func init() {
 			{Name: "BASE-DROPS-DATA", What: "a block given a new base has no data until a read into it succeeded (setBase clears the buffer; hasData tests it)", Floor: 2, Run: ruleBaseDropsData},
 			{Name: "BIT-BSIZE", What: "expectedMemberSize, from which the next block's offset is computed, is the inverse of the writer's BSIZE for every member size up to 0x10000 (shared with C01/C08; under C02 since seventh-round seed C02-h: the +1 done in sixteen bits makes the largest legal member unreadable and unseekable)", Floor: 2, Run: ruleBSize},
 			{Name: "WIDEN-FIRST", What: "package bgzf: a size taken from a member header is widened before it enters arithmetic (shared with C11)", Floor: 1, Run: ruleWidenFirst([]string{"bgzf"}, "bgzf", 5)},
+			{Name: "TAB-BGZF", What: "the BGZF constants are the specification's and the buffers are typed by them: the member buffer holds MaxBlockSize bytes, so every member a conforming writer produces can be read and sought to (shared with C01/C08; under C02 since ninth-round seed C02-j: a member buffer of BlockSize bytes panics on a full incompressible block)", Floor: 10, Run: ruleBgzfConstants},
 		}, readerRules("R1", "R2", "R3", "R4", "R5", "R6")...),
 		Explanation: "The bookkeeping that LastChunk and Seek rest on, decided on every path: where lastChunk.Begin/End are taken relative to block changes and consumption (PATH-LASTCHUNK), that Seek updates lastChunk only on success and clears the sticky error (PATH-SEEK), that the per-block offset advances by exactly what was consumed (CUR-BLOCK); and R1–R6 for \"every call returns\" under every read-ahead schedule (head token, decompressor wait group, hand-offs between Seek and the read-ahead goroutine).",
 		NotDecided:  "the numerical model (which bytes sit at which logical position), Blocked-mode end-of-block arithmetic, equality of replayed bytes.",
